@@ -36,6 +36,7 @@ func specC13() *propertySpec {
 			{"C13-R7", "same-generator-for-every-input: the fuzz target is called many times in one process with one set of generators: the draws are a function of the input bytes only if no draw stores through or hands out generator-owned storage (shared with C15-R3)", ruleC15R3},
 			{"C13-R8", "falsified-means-failed: the fuzz target fails iff the test case is falsified: every failure signal is recorded in the flag before it panics (a recovered or superseded panic is re-raised by the deferred consult) and the flag reaches checkOnce's verdict after the cleanups on every exit (shared with C02-R1, C02-R2)", func(r *Run) { ruleC02R1(r); ruleC02R2(r) }},
 			{"C13-R9", "exhaustion-stays-a-skip: running out of input is an invalidData panic raised by drawBits; no endGroup runs on the panic path (deferred), where its 'group did not use any data' assertion would replace that panic by a plain one and turn the skip into a failure", ruleNoDeferredEndGroup},
+			{"C13-R10", "same-decisions-whether-recording-or-not: MakeFuzz replays on a non-recording stream, a replay of the same words for comparison records: drawn() reports the same position in both modes and runAction decides 'skipped' from it (shared with C04-R4.8)", ruleC04R48},
 		},
 	}
 }
@@ -156,6 +157,117 @@ func ruleC13R1(r *Run) {
 			}
 		}
 	}
+	// indexed form: buf := make([]uint64, ceil(len(input)/8)); for i := range buf { copy(tmp[:], input[i*8:]); buf[i] = decode }
+	var idxBuf ssa.Value
+	// (the chunk may be clipped to the word size first: chunk := input[i*8:]; if len(chunk) > 8 { chunk = chunk[:8] })
+	idxSrc := src
+	if ph2, isPhi2 := src.(*ssa.Phi); isPhi2 && !okSrc && isArr {
+		var base ssa.Value
+		okClip := true
+		for _, e := range ph2.Edges {
+			er := p.resolve(e)
+			if sl2, ok := er.(*ssa.Slice); ok && sl2.Low == nil && sl2.High != nil {
+				if c, isC := constInt(p.resolve(sl2.High)); isC && c == at.Len() {
+					er = p.resolve(sl2.X)
+				}
+			}
+			if base != nil && er != base {
+				okClip = false
+			}
+			base = er
+		}
+		if okClip && base != nil {
+			idxSrc = base
+		}
+	}
+	if ssl, ok := idxSrc.(*ssa.Slice); ok && !okSrc && ssl.High == nil && ssl.Low != nil && p.resolve(ssl.X) == ssa.Value(input) && isArr {
+		if mul, ok := p.resolve(ssl.Low).(*ssa.BinOp); ok && mul.Op == token.MUL {
+			var idx ssa.Value
+			if c, isC := constInt(p.resolve(mul.Y)); isC && c == at.Len() {
+				idx = p.resolve(mul.X)
+			} else if c, isC := constInt(p.resolve(mul.X)); isC && c == at.Len() {
+				idx = p.resolve(mul.Y)
+			}
+			if idx != nil {
+				// the index runs 0, 1, 2, …: zero on entry, a loop-header phi advanced by one per iteration
+				var iph *ssa.Phi
+				switch x := idx.(type) {
+				case *ssa.Phi:
+					iph = x
+				case *ssa.BinOp:
+					iph, _ = p.resolve(x.X).(*ssa.Phi)
+				}
+				start, okStart := p.evalAtEntry(idx, 0)
+				okStep := iph != nil && iph.Block() == loop.Header
+				if okStep {
+					for i, e := range iph.Edges {
+						if loop.Header.Dominates(iph.Block().Preds[i]) && !isIncrementOf(p, e, iph) {
+							okStep = false
+						}
+					}
+				}
+				// the word is stored at that index of a slice with ceil(len(input)/8) elements, and the loop runs while
+				// the index is below its length
+				for _, b := range p.body(fn) {
+					for _, in := range b.Instrs {
+						st, ok := in.(*ssa.Store)
+						if !ok || !loop.Body[b] || p.resolve(st.Val) != d.Value() {
+							continue
+						}
+						ia, ok := st.Addr.(*ssa.IndexAddr)
+						if !ok || p.resolve(ia.Index) != idx {
+							continue
+						}
+						mk, ok := p.resolve(ia.X).(*ssa.MakeSlice)
+						var bufVal ssa.Value = mk
+						if !ok {
+							// nil for empty input, made otherwise
+							if bph, isPhi3 := p.resolve(ia.X).(*ssa.Phi); isPhi3 {
+								for _, e := range bph.Edges {
+									er := p.resolve(e)
+									if m2, isMk := er.(*ssa.MakeSlice); isMk && (mk == nil || mk == m2) {
+										mk = m2
+									} else if !isNilConst(er) {
+										mk = nil
+										break
+									}
+								}
+								bufVal = bph
+								ok = mk != nil
+							}
+						}
+						if !ok {
+							continue
+						}
+						okLen := true
+						for L := int64(0); L <= 40; L++ {
+							v, ok := p.evalWith(mk.Len, func(x ssa.Value) (int64, bool) {
+								if p.expr(x) == "builtin:len($input)" {
+									return L, true
+								}
+								return 0, false
+							}, 0)
+							if !ok || v != (L+at.Len()-1)/at.Len() {
+								okLen = false
+							}
+						}
+						okGuard := false
+						for _, g := range guardsOf(d.Instr.Block()) {
+							if p.relOf(g).is(p.expr(idx), "<", "builtin:len("+p.expr(bufVal)+")") {
+								okGuard = true
+							}
+						}
+						if okLen && okGuard && okStart && start == 0 && okStep {
+							idxBuf = bufVal
+						}
+					}
+				}
+			}
+		}
+		if idxBuf != nil {
+			okSrc = true
+		}
+	}
 	r.Check("checkFuzz#copy.source", cp.Instr.Pos(), okSrc, "copies from the remaining input, which advances by the bytes copied", "the copy source is not the remaining input advancing by the copied byte count: "+p.expr(src))
 	// loop condition len(input) > 0
 	okCond := false
@@ -173,6 +285,9 @@ func ruleC13R1(r *Run) {
 			}
 		}
 	}
+	if idxBuf != nil {
+		okCond = true // index below the length of a slice of ceil(len(input)/8) words (checked above)
+	}
 	r.Check("checkFuzz#loop-cond", loop.Header.Instrs[0].Pos(), okCond, "the loop runs while len(input) > 0", "the decode loop is not guarded by len(input) > 0")
 	// words → stream → T → checkOnce
 	cos := p.callsTo(fn, "checkOnce")
@@ -186,6 +301,18 @@ func ruleC13R1(r *Run) {
 		if bs, ok := p.resolve(nt.Common().Args[1]).(*ssa.Call); ok && p.calleeKey(bs.Common()) == "newBufBitStream" {
 			// buffer = the append chain of decoded words
 			buf := p.resolve(bs.Common().Args[0])
+			if idxBuf != nil && buf == idxBuf {
+				okStream = true // the pre-sized slice every element of which was stored by the decode loop
+			}
+			if bp, ok := buf.(*ssa.Phi); ok && idxBuf != nil && !okStream {
+				// … or nil where there is no word to decode (the slice is only made for a positive word count)
+				okStream = true
+				for _, e := range bp.Edges {
+					if er := p.resolve(e); er != idxBuf && !isNilConst(er) {
+						okStream = false
+					}
+				}
+			}
 			if bp, ok := buf.(*ssa.Phi); ok && bp.Block() == loop.Header {
 				okStream = true
 				for i, e := range bp.Edges {
